@@ -35,6 +35,14 @@ def replay_doc(doc, verbose=True):
     from .judge import judge
     from .observe import Obs
 
+    if doc.get("engine") == "C10auto":
+        from . import c10auto
+        inp, loc, lvl, kind, par = doc["program"]
+        r = c10auto._case((inp, loc, lvl, kind, complex(par)))
+        if verbose:
+            print("case:", doc["program"], "->", r["viol"], "dims", r["dims"], "fidelity", r["fid"])
+        ok = r["viol"] is not None and (r["viol"][0] == doc["signature"]["clause"])
+        return ok, [], None
     if doc.get("engine") and doc["engine"] != "explorer":
         from . import standalone
         return standalone.replay(doc, verbose)
